@@ -54,6 +54,7 @@ struct ZCase {
   int threads = 0;        // C19: concurrent samplers
   uint64_t engseed = 1;   // C19: mt19937_64 seed
   int seqlen = 16;        // C19
+  int rounds = 0;         // C19: rounds of the shared-generator phase (0 = default 2)
 };
 
 std::string
@@ -65,7 +66,7 @@ to_text(const ZCase &c)
     << "\nmin_s " << c.min_s << "\nmin_u " << c.min_u << "\nn " << c.n << "\n";
   snprintf(buf, sizeof buf, "%a", c.alpha);
   o << "alpha " << buf << "   # " << c.alpha << "\n";
-  o << "threads " << c.threads << "\nengseed " << c.engseed << "\nseqlen " << c.seqlen << "\n";
+  o << "threads " << c.threads << "\nengseed " << c.engseed << "\nseqlen " << c.seqlen << "\nrounds " << c.rounds << "\n";
   for (auto &p : c.probes) o << "probe " << p.ukind << " " << p.k << " " << p.word << (c.resolved ? " resolved" : "") << "\n";
   return o.str();
 }
@@ -88,6 +89,7 @@ from_text(const std::string &t, ZCase &c)
     else if (w == "n") ls >> c.n;
     else if (w == "alpha") { std::string v; ls >> v; c.alpha = strtod(v.c_str(), nullptr); }
     else if (w == "threads") ls >> c.threads;
+    else if (w == "rounds") ls >> c.rounds;
     else if (w == "engseed") ls >> c.engseed;
     else if (w == "seqlen") ls >> c.seqlen;
     else if (w == "probe") { Probe p; std::string r; ls >> p.ukind >> p.k >> p.word >> r; if (r == "resolved") c.resolved = true; c.probes.push_back(p); }
@@ -218,8 +220,26 @@ check_c18(ZCase &c, Verdict &v)
   }
   const long double total = sum;
   char b[400];
+  // which object is evaluated is a function of the case: 0 the constructed one, 1 a copy whose source was then
+  // assigned another skew, 2 a copy-assigned object whose source was destroyed
+  const int via = static_cast<int>((n + static_cast<uint64_t>(c.type)) % 3);
+  v.labels.push_back(via == 0 ? "via=direct" : via == 1 ? "via=copy" : "via=assigned");
+  auto make = [&](auto tag) {
+    using Z = typename decltype(tag)::type;
+    if (via == 0) return Z{mn, mx, c.alpha};
+    auto source = std::make_unique<Z>(mn, mx, c.alpha);
+    if (via == 1) {
+      Z out{*source};
+      *source = Z{mn, mx, c.alpha == 0.0 ? 1.25 : c.alpha * 0.5};
+      return out;
+    }
+    Z out{};
+    out = *source;
+    source.reset();
+    return out;
+  };
   if (c.cls == 0) {
-    const ZipfDistribution<T> z{mn, mx, c.alpha};
+    const ZipfDistribution<T> z = make(std::type_identity<ZipfDistribution<T>>{});
     const double tol = 4.0 * static_cast<double>(n) * 0x1p-53 + 1e-15;
     double prev = 0;
     for (uint64_t k = 0; k < n; k++) {
@@ -242,7 +262,7 @@ check_c18(ZCase &c, Verdict &v)
     if (z.GetCDF(static_cast<T>(n - 1)) != 1.0) v.fail("ZIPF-CDF-LAST", "exact: GetCDF(last bin) is not exactly 1");
     v.nontrivial = n >= 2;
   } else {
-    const ApproxZipfDistribution<T> a{mn, mx, c.alpha};
+    const ApproxZipfDistribution<T> a = make(std::type_identity<ApproxZipfDistribution<T>>{});
     if (a.GetCDF(static_cast<T>(n - 1)) != 1.0) {
       snprintf(b, sizeof b, "approx n=%" PRIu64 " alpha=%.17g: GetCDF(last bin)=%.17g is not exactly 1", n, c.alpha, a.GetCDF(static_cast<T>(n - 1)));
       v.fail("ZIPF-CDF-LAST", b);
@@ -323,6 +343,23 @@ check_c19(ZCase &c, Verdict &v)
   Z<T> assigned{};
   assigned = z;
   if (seq(assigned, c.engseed) != base) v.fail("ZIPF-PURE", "a copy-assigned generator disagrees with the original");
+  {
+    // copies own their state: re-parameterising (same bin count, other skew) and then destroying the source
+    // must not change what a copy-constructed / copy-assigned generator returns
+    auto source = std::make_unique<Z<T>>(mn, mx, c.alpha);
+    Z<T> cc{*source};
+    Z<T> ca{};
+    ca = *source;
+    const Z<T> other_skew{mn, mx, c.alpha == 0.0 ? 1.25 : c.alpha * 0.5};
+    *source = other_skew;
+    if (seq(cc, c.engseed) != base) v.fail("ZIPF-PURE", "a copy-constructed generator changed when its source was assigned other parameters");
+    if (seq(ca, c.engseed) != base) v.fail("ZIPF-PURE", "a copy-assigned generator changed when its source was assigned other parameters");
+    source.reset();
+    const Z<T> filler{mn, mx, c.alpha == 0.0 ? 2.5 : c.alpha * 0.25};  // may re-use the freed storage
+    (void)filler;
+    if (seq(cc, c.engseed) != base) v.fail("ZIPF-PURE", "a copy-constructed generator changed when its source was destroyed");
+    if (seq(ca, c.engseed) != base) v.fail("ZIPF-PURE", "a copy-assigned generator changed when its source was destroyed");
+  }
   Z<T> src{mn, mx, c.alpha};
   (void)seq(src, c.engseed + 1);  // sample before moving
   Z<T> moved{std::move(src)};
@@ -343,22 +380,52 @@ check_c19(ZCase &c, Verdict &v)
       }
     }
   }
-  // one const generator shared by several threads, each with a private engine
+  // one const generator shared by several threads, each with a private engine. The shared object is a warm one
+  // (`z`, sampled above) in even rounds and a cold one (constructed and handed to the threads unsampled) in odd
+  // rounds; besides drawing, the threads read GetCDF at thread-specific bins. Every thread must see exactly what it
+  // sees alone. (In the ThreadSanitizer build a data race inside these const calls ends the process; the driver
+  // reports it as ZIPF-RACE.)
   if (c.threads >= 2) {
-    std::vector<std::vector<T>> got(c.threads);
-    std::vector<std::thread> th;
-    std::atomic<int> go{0};
-    for (int t = 0; t < c.threads; t++) {
-      th.emplace_back([&, t] {
-        go.fetch_add(1);
-        while (go.load() < c.threads) {
+    constexpr int kCdfReads = 6;
+    const int rounds = c.rounds > 0 ? c.rounds : 2;
+    for (int round = 0; round < rounds; round++) {
+      std::unique_ptr<const Z<T>> cold;
+      if (round % 2 == 1) cold = std::make_unique<const Z<T>>(mn, mx, c.alpha);
+      const Z<T> &shared = cold ? *cold : z;
+      std::vector<std::vector<T>> got(c.threads);
+      std::vector<std::vector<double>> cdf(c.threads);
+      std::vector<int> threw(c.threads, 0);
+      std::vector<std::thread> th;
+      std::atomic<int> go{0};
+      auto bin_of = [&](int t, int i) { return static_cast<T>(wk::splitmix(c.engseed + 77 * static_cast<uint64_t>(t) + static_cast<uint64_t>(i)) % c.n); };
+      for (int t = 0; t < c.threads; t++) {
+        th.emplace_back([&, t] {
+          go.fetch_add(1);
+          while (go.load() < c.threads) {
+          }
+          try {
+            for (int i = 0; i < kCdfReads / 2; i++) cdf[t].push_back(shared.GetCDF(bin_of(t, i)));
+            got[t] = seq(shared, c.engseed + 1000 + t);
+            for (int i = kCdfReads / 2; i < kCdfReads; i++) cdf[t].push_back(shared.GetCDF(bin_of(t, i)));
+          } catch (const std::exception &) {
+            threw[t] = 1;
+          }
+        });
+      }
+      for (auto &t : th) t.join();
+      for (int t = 0; t < c.threads; t++) {
+        if (threw[t]) {
+          v.fail("ZIPF-SHARED", "a thread using a shared const generator got an exception");
+          continue;
         }
-        got[t] = seq(z, c.engseed + 1000 + t);
-      });
-    }
-    for (auto &t : th) t.join();
-    for (int t = 0; t < c.threads; t++) {
-      if (got[t] != seq(z, c.engseed + 1000 + t)) v.fail("ZIPF-SHARED", "a thread sampling a shared const generator got a different sequence than it gets alone");
+        if (got[t] != seq(twin, c.engseed + 1000 + t)) v.fail("ZIPF-SHARED", std::string("a thread sampling a shared const generator (") + (cold ? "not sampled before" : "sampled before") + ") got a different sequence than it gets alone");
+        for (int i = 0; i < kCdfReads; i++) {
+          if (cdf[t][i] != twin.GetCDF(bin_of(t, i))) {
+            v.fail("ZIPF-SHARED", "GetCDF read by a thread from a shared const generator differs from the value read alone");
+            break;
+          }
+        }
+      }
     }
     v.labels.push_back("shared_by_threads");
   }
